@@ -15,3 +15,4 @@ import AGV.Props.C06
 #print axioms AGV.Props.C06.c06_value_false
 #print axioms AGV.Props.C06.c06_typed_false
 #print axioms AGV.Props.C06.c06_request_false
+#print axioms AGV.Props.C06.c06_witness_literal_unchecked_beside_unsupplied_variable
